@@ -974,6 +974,28 @@ Proof.
   - intros (x & y & ix & iy & e). exists x. split; [assumption|]. apply in_map_iff. exists y. auto.
 Qed.
 
+(* COLT force: a leaf becomes a trie of height 1 with the same rows; inner nodes give None *)
+Lemma force_spec h d t : wf h d t ->
+  (h = 0 /\ exists t', force h d t = Some t' /\ wf 1 d t' /\
+             forall x, In x (riter 1 t') <-> In x (riter h t)) \/
+  (exists k, h = S k /\ force h d t = None).
+Proof.
+  intros W. destruct h as [|k].
+  - left. split; [reflexivity|]. destruct t as [rows|]; [|contradiction]. cbn [force].
+    eexists. split; [reflexivity|]. unfold hs_into_iter. cbn [riter].
+    assert (G : forall rs t0, wf 1 d t0 ->
+              wf 1 d (fold_left (fun t r => insert 1 d t r) rs t0) /\
+              forall x, In x (riter 1 (fold_left (fun t r => insert 1 d t r) rs t0)) <->
+                        In x (riter 1 t0) \/ In x rs).
+    { induction rs as [|r rs IHrs]; intros t0 W0; cbn [fold_left].
+      - split; [assumption|]. intros x. cbn. tauto.
+      - destruct (insert_spec 1 d t0 r W0) as [W1 M1]. destruct (IHrs _ W1) as [W2 M2].
+        split; [assumption|]. intros x. rewrite M2, M1. cbn. intuition. }
+    destruct (G rows (empty 1) (wf_empty 1 d)) as [W' M']. split; [exact W'|].
+    intros x. rewrite M', riter_empty. cbn. tauto.
+  - right. exists k. split; [reflexivity|]. destruct t; reflexivity.
+Qed.
+
 (* ------------------------------------------------------------------ histories *)
 Lemma nodup_bag_eqb l1 l2 :
   NoDup l1 -> NoDup l2 -> (forall x, In x l1 <-> In x l2) -> bag_eqb l1 l2 = true.
@@ -1036,7 +1058,7 @@ Lemma gstep_refines nk a p q o :
   gans_ok (snd (gstep nk p o)) (snd (gspec_step nk q o)).
 Proof.
   intros Lnk ok R2.
-  destruct o as [w r|w|w r|w|w pr|w r|w|w|w|w|w|w nko]; cbn [gstep gspec_step gop_ok] in *;
+  destruct o as [w r|w|w r|w|w pr|w r|w|w|w|w|w|w nko|w]; cbn [gstep gspec_step gop_ok] in *;
     pose proof (@Rg_sel nk a w p q R2) as Rw; pose proof (@Rg_sel nk a (negb w) p q R2) as Ro;
     pose proof Rw as (Ww & Mw & Fw); pose proof Ro as (Wo & Mo & Fo).
   - (* insert *)
@@ -1121,6 +1143,13 @@ Proof.
     rewrite !in_cart_spec. split.
     + intros [[]|(x & y & ix & iy & ->)]. exists x, y. split; [apply Mw, ix|split; [apply Mo, iy|reflexivity]].
     + intros (x & y & ix & iy & ->). right. exists x, y. split; [apply Mw, ix|split; [apply Mo, iy|reflexivity]].
+  - (* COLT force *)
+    cbn [fst snd]. split; [assumption|]. unfold gans_ok.
+    destruct (force_spec nk 0 (sel w p) Ww) as [F|F].
+    + destruct F as (e & t' & E & W' & M'). subst nk. rewrite E. cbn.
+      apply nodup_bag_eqb; [apply (riter_nodup 1 0 _ W')|apply distinct_nodup|].
+      intros x. rewrite in_distinct, M'. apply Mw.
+    + destruct F as (k & e & E). subst nk. rewrite E. reflexivity.
 Qed.
 
 Lemma grun_refines nk a ops : nk <= a ->
